@@ -928,19 +928,23 @@ class Constraints:
     @classmethod
     def lax_max_digits(cls, value, max_digits: int):
         digits, decimals = cls._parse_decimal(value)
-        if digits <= max_digits:
-            return value
+        while digits > max_digits:
+            delta = digits - max_digits
 
-        delta = digits - max_digits
+            # 123.456
+            # decimals: 3
+            # max_digits: 4
+            # delta: 3
 
-        # 123.456
-        # decimals: 3
-        # max_digits: 4
-        # delta: 3
-
-        if decimals >= delta:
-            return round(value, decimals - delta)
-        raise ValueError
+            if decimals < delta:
+                raise ValueError
+            value = round(value, decimals - delta)
+            # rounding may carry into a new integer digit (99.99 -> 100.0): check again
+            rounded = cls._parse_decimal(value)
+            if rounded == (digits, decimals):
+                raise ValueError
+            digits, decimals = rounded
+        return value
 
     @classmethod
     def const(cls, value, v):
